@@ -59,8 +59,19 @@ def main():
             mod.run(chk)
     except SystemExit:
         raise
-    except BaseException:
+    except BaseException as e:
         traceback.print_exc()
+        # an exception RAISED INSIDE THE LIBRARY for an input of the check (every input the checks build is valid and is handled by the
+        # unchanged tree) is a failure of the property under test, not of the machinery; anything raised in the harness itself is exit 2
+        tb = traceback.extract_tb(e.__traceback__)
+        repo = os.path.realpath(os.environ.get('VERIF_REPO', '/repo'))
+        inner = os.path.realpath(tb[-1].filename) if tb else ''
+        in_lib = inner.startswith(repo + os.sep) and (os.sep + 'abacusnbody' + os.sep) in inner
+        if in_lib and not isinstance(e, (KeyboardInterrupt, MemoryError)):
+            where = f'{os.path.relpath(inner, repo)}:{tb[-1].lineno} in {tb[-1].name}'
+            chk.violation(f'library-raises-{type(e).__name__}', f'the library raised {type(e).__name__}: {str(e)[:300]} at {where} on an input of this check '
+                          f'(the check stopped here; what it explored before is in the evidence)', dict(where=where, error=f'{type(e).__name__}: {str(e)[:300]}'))
+            sys.exit(chk.finish())
         print(f'MACHINERY-FAILURE property={pid}')
         chk.finish(machinery_failure=True)
         sys.exit(2)
